@@ -125,7 +125,7 @@ def generate(rng, tier, index):
         few = [{"agg": {"kind": "TrimmedMean", "b": bb}, "m": mm} for bb in (1, 2, 4) for mm in (1, 2 * bb) if mm >= 1]
     else:
         few = [{"agg": {"kind": "Krum", "f": ff, "k": 1}, "m": ff + 2} for ff in (0, 1, 3)] + [{"agg": {"kind": "Krum", "f": 0, "k": 5}, "m": 4}]
-    return {"agg": agg, "dtype": dtype, "honest": honest, "cases": cases, "too_few": few}
+    return {"agg": agg, "dtype": dtype, "honest": honest, "cases": cases, "too_few": few, "reuse_buffer": rng.random() < 0.5}
 
 
 def execute(scn):
@@ -136,6 +136,7 @@ def execute(scn):
     m, n = len(honest), len(honest[0])
     stats, events, viols, sets = {}, [], [], {}
     cases_sig = []
+    buffers = {}
     for ci, case in enumerate(scn["cases"]):
         rows = [list(r) for r in honest]
         hit = sorted(int(i) for i in case["rows"].keys())
@@ -143,7 +144,18 @@ def execute(scn):
             rows[i] = list(case["rows"][str(i)])
         from ..aggs import matrix_form
 
-        Jt = matrix_form(torch.tensor(rows, dtype=dtype), case.get("form", "plain"))
+        form = case.get("form", "plain")
+        if scn.get("reuse_buffer") and form != "requires_grad":
+            # the same tensor object refilled in place for every case (a reused Jacobian buffer): the result
+            # must depend on its current contents, not on its identity
+            key = (len(rows), len(rows[0]), form)
+            if key not in buffers:
+                buffers[key] = matrix_form(torch.zeros((len(rows), len(rows[0])), dtype=dtype), form)
+            buffers[key].copy_(torch.tensor(rows, dtype=dtype))
+            Jt = buffers[key]
+            stats["reach.input_buffer_refilled_in_place"] = stats.get("reach.input_buffer_refilled_in_place", 0) + 1
+        else:
+            Jt = matrix_form(torch.tensor(rows, dtype=dtype), form)
         J = Jt.detach().to(torch.float64).numpy()
         before = Jt.detach().clone()
         try:
